@@ -493,6 +493,10 @@ def apply_op(be, sch, tuner, op):
         else:
             raise ValueError(k)
     except Exception as e:  # noqa
+        if hasattr(be, "root") and isinstance(e, FileNotFoundError) and k in ("pause", "stop") and op.get("trial") not in be.env:
+            # an id that was never started: the real LocalBackend fails on the trial's directory (FileNotFoundError), the
+            # in-memory environment on its table (KeyError) - the same refusal, which exception type it is is no model quantity
+            return {"err": "key-error"}
         if k == "loop" and "status" in out:
             # raised after the poll (and possibly after commands): keep what was observed
             res = {"err": errname(e), "_partial": dict(out)}
